@@ -2,6 +2,7 @@ package main
 
 import (
 	"context"
+	"encoding/json"
 	"fmt"
 	"sort"
 	"strings"
@@ -352,7 +353,7 @@ func c01BaseCtx(tokens []string, conc int, b Bounds) *Scenario {
 // the code NoError. Every call gets exactly one response with a result or an error, nothing else is sent.
 func c01Odd() *Scenario {
 	return &Scenario{
-		Name:   "push-enabled: callback reply batched with a call; batch after leading white space; handler error with code NoError",
+		Name:   "push-enabled: callback reply batched with a call; batch after leading white space; handler error with code NoError; results that are nil, pre-encoded or not encodable",
 		Params: map[string]any{},
 		Bounds: Bounds{0, 0, 0},
 		New: func() *Instance {
@@ -362,8 +363,19 @@ func c01Odd() *Scenario {
 				h.pipe, h.peer = pipe, peer
 				inner := h.handler()
 				hd := func(ctx context.Context, req *jrpc2.Request) (any, error) {
-					if req.Method() == "noerr" {
+					switch req.Method() {
+					case "noerr":
 						return nil, myCoder{c: jrpc2.NoError}
+					case "rawnil": // marshals as null
+						return json.RawMessage(nil), nil
+					case "rawempty": // cannot be marshalled
+						return json.RawMessage{}, nil
+					case "rawbad": // cannot be marshalled
+						return json.RawMessage("{"), nil
+					case "nilptr": // marshals as null
+						return (*int)(nil), nil
+					case "rawok":
+						return json.RawMessage(" {\"a\" : 1} "), nil
 					}
 					return inner(ctx, req)
 				}
@@ -393,6 +405,11 @@ func c01Odd() *Scenario {
 					vs.AwaitQuiescence()
 					peer.Send([]byte(`{"jsonrpc":"2.0","id":10,"method":"noerr"}`))
 					vs.AwaitQuiescence()
+					// results that are pre-encoded, nil or not encodable: still exactly one response with exactly one outcome
+					peer.Send([]byte(`{"jsonrpc":"2.0","id":12,"method":"rawnil"}`))
+					vs.AwaitQuiescence()
+					peer.Send([]byte(`[{"jsonrpc":"2.0","id":13,"method":"rawempty"},{"jsonrpc":"2.0","id":14,"method":"rawbad"},{"jsonrpc":"2.0","id":15,"method":"nilptr"},{"jsonrpc":"2.0","id":16,"method":"rawok"},{"jsonrpc":"2.0","id":17,"method":"rawnil"}]`))
+					vs.AwaitQuiescence()
 					vs.Note("quiet")
 				})
 				srv.WaitStatus()
@@ -403,6 +420,7 @@ func c01Odd() *Scenario {
 					return v
 				}
 				Hit("C01.R1")
+				wantKind := map[string]string{"12": "result", "13": "error", "14": "error", "15": "result", "16": "result", "17": "result"}
 				seen := map[string]int{}
 				for _, o := range outEvents(x, "srv") {
 					ms, _, err := parseRecord([]byte(o.Raw))
@@ -417,10 +435,12 @@ func c01Odd() *Scenario {
 						seen[m.ID()]++
 						if m.Has("result") == m.Has("error") {
 							v = append(v, Viol{"C01.R1", "a response must carry exactly one of result and error: " + string(m.Raw)})
+						} else if k := wantKind[m.ID()]; k != "" && !m.Has(k) {
+							v = append(v, Viol{"C01.R1", "the handler's outcome for call " + m.ID() + " is a " + k + ", the response is " + string(m.Raw)})
 						}
 					}
 				}
-				for _, id := range []string{"100", "7", "8", "9", "10", "11"} {
+				for _, id := range []string{"100", "7", "8", "9", "10", "11", "12", "13", "14", "15", "16", "17"} {
 					if seen[id] != 1 {
 						v = append(v, Viol{"C01.R1", fmt.Sprintf("call %s received %d responses, want exactly one", id, seen[id])})
 					}
